@@ -21,6 +21,10 @@ def build(case):
     from femio import FEMData, FEMAttribute, FEMElementalAttribute
     ids = np.array([n[0] for n in case['nodes']], dtype=np.int64)
     xyz = np.array([n[1] for n in case['nodes']], dtype=float)
+    sc = case.get('scale')
+    if sc:
+        # exact for powers of two; for powers of ten each coordinate is rounded once
+        xyz = xyz * (float(sc[0]) / float(sc[1]))
     blocks = {}
     for typ, es in case['blocks'].items():
         blocks[typ] = FEMAttribute(typ, np.array([e[0] for e in es], dtype=np.int64),
@@ -113,23 +117,46 @@ def run_case(case, work):
             os.remove(path)
             return {'lines': lines, 'read': back}
         guard('obj', f)
+    def incidence_of(fd):
+        facet, inc, normals = fd.calculate_normal_incidence_matrix()
+        coo = inc.tocoo()
+        trip = sorted((int(r), int(c), int(v)) for r, c, v in zip(coo.row, coo.col, coo.data))
+        return {'cell_ids': fd.elements.ids.astype(np.int64).tolist(),
+                'cell_types': [str(t) for t in fd.elements.types],
+                'shape': [int(inc.shape[0]), int(inc.shape[1])],
+                'facet_nodes': facet.nodes.ids.astype(np.int64).tolist(),
+                'facets': {k: {'ids': v.ids.astype(np.int64).tolist(),
+                               'data': np.asarray(v.data).astype(np.int64).tolist()}
+                           for k, v in facet.elements.items()},
+                'facet_ids': facet.elements.ids.astype(np.int64).tolist(),
+                'triples': trip,
+                'normals': [[frac(c) for c in row] for row in np.asarray(normals).tolist()]}
+
     if 'incidence' in want:
+        guard('incidence', lambda: incidence_of(build(case)))
+    if 'incidence_moved' in want:
+        # ONE object: compute, move the mesh in place, compute again; plus a fresh
+        # object built on the moved coordinates
         def f():
+            mv = case['move']
             fd = build(case)
-            facet, inc, normals = fd.calculate_normal_incidence_matrix()
-            coo = inc.tocoo()
-            trip = sorted((int(r), int(c), int(v)) for r, c, v in zip(coo.row, coo.col, coo.data))
-            return {'cell_ids': fd.elements.ids.astype(np.int64).tolist(),
-                    'cell_types': [str(t) for t in fd.elements.types],
-                    'shape': [int(inc.shape[0]), int(inc.shape[1])],
-                    'facet_nodes': facet.nodes.ids.astype(np.int64).tolist(),
-                    'facets': {k: {'ids': v.ids.astype(np.int64).tolist(),
-                                   'data': np.asarray(v.data).astype(np.int64).tolist()}
-                               for k, v in facet.elements.items()},
-                    'facet_ids': facet.elements.ids.astype(np.int64).tolist(),
-                    'triples': trip,
-                    'normals': [[frac(c) for c in row] for row in np.asarray(normals).tolist()]}
-        guard('incidence', f)
+            first = incidence_of(fd)
+            if mv['kind'] == 'api':
+                fd.nodal_data.reset()
+                ax = mv['axis']
+                fd.rotation(float(ax[0]), float(ax[1]), float(ax[2]),
+                            2 * np.pi * mv['turn'][0] / mv['turn'][1])
+                t = mv['translate']
+                fd.translation(float(t[0]), float(t[1]), float(t[2]))
+            else:
+                fd.nodes.data[:, :] = np.array(mv['coords'], dtype=float)
+            second = incidence_of(fd)
+            moved_xyz = [[frac(c) for c in row] for row in fd.nodes.data.tolist()]
+            fresh_case = dict(case, nodes=[[n[0], c] for n, c in zip(case['nodes'], fd.nodes.data.tolist())],
+                              scale=None)
+            fresh = incidence_of(build(fresh_case))
+            return {'first': first, 'second': second, 'fresh': fresh, 'moved_xyz': moved_xyz}
+        guard('incidence_moved', f)
     return res
 
 
